@@ -30,6 +30,10 @@ dictionaries it is given (the Rst object clears its own in place).
 SANITIZE / SAN-BODY (shared with C19) - the report root
 directory is derived from the sanitized task name and the sanitizer is
 identity-or-raise.
+FIG-ALL - both figure-writing branches of FormattedRst.write (sequential
+loop, Pool.map) range over the full list built from self.plots, and a
+chunksize, if given, is provably >= 1. HEADER-DEPTH - every header is asked
+at the depth of the section being formatted (len(tree)), never deeper.
 Not decided: page content, validity of the toctree for Sphinx, figure
 rendering, depth limits.
 '''
@@ -46,6 +50,8 @@ def check(ctx):
     ctx.run(reportfs.check_page_flow)
     ctx.run(reportfs.check_fig_name)
     ctx.run(reportfs.check_report_owns)
+    ctx.run(reportfs.check_fig_all)
+    ctx.run(reportfs.check_header_depth)
     ctx.run(extcmd.check_sanitize, scope=('report-root',), floor=1)
     ctx.run(extcmd.check_sanitizer_body)
 
@@ -262,4 +268,39 @@ def variants(program):
                 ok = True
         return ok
     add('twin-dictionaries-copied-with-dict', 'twin', dict_ctor_copies)
+    def _chunked(expr):
+        def editor(tree):
+            fun = find_func(tree, 'FormattedRst.write')
+            return replace_first(
+                fun, lambda n: isinstance(n, ast.Call) and call_name(n) ==
+                'map' and 'writer' in txt(n),
+                lambda n: ast.Call(func=n.func, args=n.args, keywords=[
+                    ast.keyword(arg='chunksize', value=parse_expr(expr))]))
+        return editor
+    add('seed-one-batch-of-figures-per-worker', 'mutant',
+        _chunked('len(items) // self.n_workers'), {'FIG-ALL'},
+        note='seed C20-r2-1: fewer figures than workers -> chunksize 0 -> '
+             'no figure written')
+    add('twin-batches-of-at-least-one-figure', 'twin',
+        _chunked('max(1, len(items) // self.n_workers)'))
+
+    def result_headers(tree):
+        # seed C20-r2-2
+        rec = find_func(tree, 'Rst.format_report_rec')
+        done = replace_first(
+            rec, lambda n: isinstance(n, ast.Call) and txt(n) ==
+            'self.format_result(stuff)',
+            lambda n: parse_expr(
+                'self.format_result(stuff, depth=len(tree) + 1)'))
+        fun = find_func(tree, 'Rst.format_result')
+        fun.args.kwonlyargs.append(ast.arg(arg='depth'))
+        fun.args.kw_defaults.append(ast.Constant(value=1))
+        pos = 1 if isinstance(fun.body[0], ast.Expr) else 0
+        fun.body.insert(pos, parse_stmts(
+            'head = self.formatter.header(result.test.name, depth)')[0])
+        return done
+    add('seed-result-headers-one-level-below-the-section', 'mutant',
+        result_headers, {'HEADER-DEPTH'},
+        note='a result in a fifth-level section makes format_report raise')
+
     return out
